@@ -1,6 +1,8 @@
 import CV.Drv.Util
 import CV.Drv.StaticPath
 import CV.Model.Ranges
+import CV.Model.RangesMultipart
+import CV.Model.MultipartSpec
 /- Driver glue for the `ranges` machine (C16): `file` sets the current entity, then `serve`
    (model answer) and `spec` (spec predicate on the implementation's observed answer). -/
 namespace CV.Drv.RG
@@ -61,6 +63,29 @@ def rgProto : String → Option Bool
   | "10" => some false
   | _ => none
 
+def readRange (t : String) : Option (Nat × Nat) :=
+  match t.splitOn ":" with
+  | [a, b] =>
+    match a.toNat?, b.toNat? with
+    | some a, some b => some (a, b)
+    | _, _ => none
+  | _ => none
+
+def showChunks (cs : List Bytes) : String := "chunks " ++ " ".intercalate (cs.map toHex)
+
+def showOptNat : Option Nat → String
+  | none => "~"
+  | some n => toString n
+
+def showOptBytes : Option Bytes → String
+  | none => "~"
+  | some b => toHex b
+
+def showMulti (w : MultiResp) : String :=
+  s!"multi {w.status} {toHex w.contentType} {showOptNat w.contentLength} {showOptBytes w.contentRange} {toHex w.acceptRanges} | {showChunks w.chunks}"
+
+def showRead (p : Option Bytes × Part) : String := s!"{showOptBytes p.1} {showPart p.2}"
+
 def rangesStep (s : RgSt) : List String → RgSt × String
   | ["file", f] =>
     match fromHex f with
@@ -89,6 +114,54 @@ def rangesStep (s : RgSt) : List String → RgSt × String
   | ["rangeint", x] =>
     match spStr x with
     | some x => (s, match rangeInt s.md x with | some n => toString n | none => "none")
+    | none => (s, "bad-op")
+  | "mpchunks" :: ct :: bnd :: rs =>
+    -- the chunks `file_ranges()` yields for an explicit list of ranges `a:b`
+    match fromHex ct, fromHex bnd, rs.mapM readRange with
+    | some ct, some bnd, some rs => (s, showChunks (multipartChunks s.file ct bnd rs))
+    | _, _, _ => (s, "bad-op")
+  | ["mpserve", pr, hv, ct, bnd] =>
+    match rgProto pr, spOpt hv, fromHex ct, fromHex bnd with
+    | some pr, some hv, some ct, some bnd =>
+      (s, match serveMultipart s.md pr hv s.file ct bnd with
+          | none => "notmulti"
+          | some w => showMulti w)
+    | _, _, _, _ => (s, "bad-op")
+  | ["mpread", bnd, body] =>
+    -- the RFC reader on a body the implementation sent
+    match fromHex bnd, fromHex body with
+    | some bnd, some body =>
+      (s, match CV.Multipart.readByteranges bnd body with
+          | none => "unreadable"
+          | some ps => "parts " ++ " ; ".intercalate (ps.map showRead))
+    | _, _ => (s, "bad-op")
+  | ["mpspec", pr, hv, cth, body] =>
+    -- spec on the wire: boundary from the Content-Type header, RFC reading of the body, `respOk`
+    match rgProto pr, spOpt hv, fromHex cth, fromHex body with
+    | some pr, some hv, some cth, some body =>
+      (s, match CV.Multipart.boundaryOf cth with
+          | none => "fail no-boundary"
+          | some bnd =>
+            match CV.Multipart.readByteranges bnd body with
+            | none => "fail unreadable"
+            | some ps => if respOk s.md pr hv s.file (.multi (ps.map (·.2))) then "ok" else "fail range-exact")
+    | _, _, _, _ => (s, "bad-op")
+  | ["cond", pr, goh, lastmod, ius, ims, hv] =>
+    match rgProto pr, rgProto goh, spStr lastmod, spOpt ius, spOpt ims, spOpt hv with
+    | some pr, some goh, some lm, some ius, some ims, some hv =>
+      (s, match serveCond s.md pr goh lm ius ims hv s.file with
+          | .s304 => "s304"
+          | .s412 => "s412"
+          | .ranged r => "ranged " ++ showResp r)
+    | _, _, _, _, _, _ => (s, "bad-op")
+  | ["bndok", b] =>
+    -- decidable hypothesis of `C16.code_boundary_no_cr` on a boundary the live code made
+    match fromHex b with
+    | some b => (s, if b.all (fun c => c = 61 || CV.Multipart.isDigitB c) then "yes" else "no")
+    | none => (s, "bad-op")
+  | ["natdec", n] =>
+    match n.toNat? with
+    | some n => (s, toHex (natDec n))
     | none => (s, "bad-op")
   | _ => (s, "bad-op")
 
